@@ -642,6 +642,16 @@ fn run_b_mixed(ctx: &Ctx, seed: u64) -> RunOutcome {
             order.push(rng.usize_below(4));
         }
         for (i, k) in order.iter().enumerate() {
+            // now and then a secret key object dies on this thread between two signatures: a clone, or a
+            // key that was only decoded (whatever a destructor tidies up must not be what the next call reads)
+            if i % 7 == 3 {
+                drop(a.clone());
+            }
+            if i % 7 == 5 {
+                if let Ok(tmp) = V1024::sk_from_bytes(&V1024::sk_to_bytes(&c)) {
+                    drop(tmp);
+                }
+            }
             let salt = match k {
                 0 => world::sign_sim::<V512>(&a, &msg, &real, None).0.ok().and_then(|s| salt_of(&V512::sig_to_bytes(&s))),
                 1 => world::sign_sim::<V512>(&b, &msg, &real, None).0.ok().and_then(|s| salt_of(&V512::sig_to_bytes(&s))),
